@@ -264,7 +264,7 @@ class Builder:
             h.body = [self.plain()] if r.random() < 0.4 else []
             body.insert(r.randint(0, len(body)), h)
         im = Item(kind, kind, ["${" + nm + "}"], uid, body=body, endcmd="end" + kind, is_impl=True,
-                  name="${" + nm + "}", params=[])
+                  name="${" + nm + "}", params=[], endargs=(["${" + nm + "}"] if r.random() < 0.2 else []))
         if self.p_doc_impl and r.random() < self.p_doc_impl:
             im.doc = [f"{{L{uid}.0}} doccomment on the implementing definition"]
             self.unasserted_impl_names.add(im.gt["name"])
@@ -338,7 +338,7 @@ class Builder:
         # the instance argument is positional: any name may be used for it
         selfname = r.choice(["self", "self", "this", "_self", "me", "${self}", "obj"])
         impl = Item(ikind, ikind, [ref, selfname] + pw, iuid, body=body, endcmd="end" + ikind, is_impl=True,
-                    name=ref, params=pe)
+                    name=ref, params=pe, endargs=([ref] if r.random() < 0.2 else []))      # endfunction("${name}")
         if self.p_doc_impl and r.random() < self.p_doc_impl:
             impl.doc = [f"{{L{iuid}.0}} doccomment on the implementing definition"]
             self.unasserted_impl_names.add(ref)
